@@ -415,6 +415,26 @@ def checkDist (cfg : LensCfg α) (h : Hyper α) (isZero : α → Bool) : Except 
     .ok (!(lensDrawBool cfg.dist h.lens isZero || anisoDrawBool cfg.aniso h.kin isZero || db
            || (magType cfg.ltype && !isZero (getD h.source "sigma_sne" 0.0))))
 
+/-! ### the parameters a lens realises (static) -/
+
+/-- keys of the dictionary a successful `draw_lens` returns -/
+def lensKeys (cfg : LensDist α) : List String :=
+  ["lambda_mst", "gamma_ppn"] ++ (if cfg.gammaInSampling then ["gamma_in"] else [])
+    ++ (if cfg.logM2lSampling then ["log_m2l"] else [])
+    ++ (if cfg.gammaPlIndex.isSome || cfg.gammaPlGlobalSampling then ["gamma_pl"] else [])
+
+/-- keys of the dictionary a successful `draw_anisotropy` returns -/
+def anisoKeys (cfg : AnisoDist α) (kw : Dict α) : List String :=
+  if cfg.sampling then
+    (if cfg.model = "OM" ∨ cfg.model = "const" ∨ cfg.model = "GOM" then ["a_ani"] else [])
+      ++ (if cfg.model = "GOM" then ["beta_inf"] else [])
+  else
+    (if (Dict.get? kw "a_ani").isSome then ["a_ani"] else [])
+      ++ (if (Dict.get? kw "beta_inf").isSome then ["beta_inf"] else [])
+
+/-- the parameters handed to `kin_scaling` and to the per-lens prior: the lens' OWN parameters -/
+def realisedKeys (cfg : LensCfg α) (hy : Hyper α) : List String := lensKeys cfg.dist ++ anisoKeys cfg.aniso hy.kin
+
 /-! ### the declared populations -/
 
 /-- centre of the lens' `gamma_in` population -/
